@@ -615,13 +615,12 @@ pub fn check_instant(c: &InstantCtx, sink: &Sink) -> bool {
 impl Model {
     /// Rebuilds the model from the (validated) on-disk state after a fault.
     /// Returns false if some archive cannot be represented (undecodable).
-    /// The archive directory was removed from outside: the window is empty, its
-    /// records are gone from the stream, bystanders below it are gone too.
+    /// The archive directory was removed from outside: the window is empty and
+    /// bystanders below it are gone. The record stream stays as it is: what is
+    /// left on disk (the active file) is still a suffix of it.
     pub fn purge_archives(&mut self) {
-        let gone: std::collections::HashSet<RecId> = self.window.values().flat_map(|c| frame::whole_ids(c)).collect();
         self.window.clear();
         self.others.retain(|k, _| !k.starts_with("arch/"));
-        self.stream.retain(|id| !gone.contains(id));
     }
 
     pub fn resync(&mut self, names: &Names) -> bool {
